@@ -40,6 +40,8 @@ ASSUMPTIONS = [
 @st.composite
 def strategy_(draw, tier):
     from vv import struct
+    if draw(st.integers(0, 9)) == 0:
+        return draw(keys_only())
     if draw(st.integers(0, 2)) == 0:
         spec = draw(hier.wirings())
         spec['kind'] = 'static'
@@ -49,6 +51,111 @@ def strategy_(draw, tier):
                                  anchor_ok=True))
     spec['kind'] = 'struct'
     return spec
+
+
+@st.composite
+def keys_only(draw):
+    """A collection that every process sees through a keys-only glob port
+    ('*': {}), as division / engulfing processes do: the operator adds and
+    deletes children, the watchers must see exactly the current keys."""
+    keys = ['c%d' % i for i in range(8)]
+    init = draw(st.lists(st.sampled_from(keys[:4]), min_size=1, max_size=3,
+                         unique=True))
+    live, fresh = set(init), [k for k in keys if k not in init]
+    ticks = []
+    for _ in range(draw(st.integers(1, 4))):
+        batch, freed = [], []
+        for _ in range(draw(st.integers(1, 2))):
+            if fresh and (not live or draw(st.booleans())):
+                k = fresh.pop(0)
+                batch.append({'op': 'add', 'key': k})
+                live.add(k)
+            elif live:
+                # the initial children stay (a declaring process is wired
+                # into them); added ones may be deleted again
+                cand = sorted(live - set(init) - {b['key'] for b in batch})
+                if not cand:
+                    break
+                k = draw(st.sampled_from(cand))
+                batch.append({'op': 'delete', 'key': k})
+                live.discard(k)
+                freed.append(k)
+        fresh.extend(freed)
+        ticks.append(batch)
+    watchers = [{'name': 'W%d' % i,
+                 'ts': draw(st.sampled_from([1.0, 0.5, 2.0])),
+                 'as_step': draw(st.booleans())}
+                for i in range(draw(st.integers(1, 2)))]
+    return {'kind': 'keysonly', 'init': sorted(init), 'ticks': ticks,
+            'watchers': watchers}
+
+
+def run_keysonly(spec, res):
+    from vivarium.core.engine import Engine
+    ctx = kit.Context()
+    ctx.snap = True
+    try:
+        script = []
+        for batch in spec['ticks']:
+            upd = {}
+            for op in batch:
+                if op['op'] == 'add':
+                    upd.setdefault('_add', []).append(
+                        {'key': op['key'], 'state': {}})
+                else:
+                    upd.setdefault('_delete', []).append(op['key'])
+            script.append({'pool': upd})
+        glob = {'pool': {'*': {}}}
+        processes = {'OP': kit.WireProcess({
+            'name': 'OP', 'run_id': ctx.run_id, 'schema': copy.deepcopy(glob),
+            'script': script, 'time_step': 1.0})}
+        topology = {'OP': {'pool': ('pool',)}}
+        # the initial children are real compartments: each holds a variable
+        # that a separate process declares through an ordinary port
+        processes['DECL'] = kit.WireProcess({
+            'name': 'DECL', 'run_id': 0, 'update': {}, 'time_step': 1.0,
+            'schema': {'p_' + k: {'x': {'_default': 1, '_emit': True}}
+                       for k in spec['init']}})
+        topology['DECL'] = {'p_' + k: ('pool', k) for k in spec['init']}
+        steps, flow = {}, {}
+        for w in spec['watchers']:
+            params = {'name': w['name'], 'run_id': ctx.run_id, 'update': {},
+                      'schema': copy.deepcopy(glob), 'time_step': w['ts']}
+            if w['as_step']:
+                steps[w['name']] = kit.WireStep(params)
+                flow[w['name']] = []
+            else:
+                processes[w['name']] = kit.WireProcess(params)
+            topology[w['name']] = {'pool': ('pool',)}
+        kwargs = dict(processes=processes, topology=topology,
+                      initial_state={},
+                      display_info=False, emitter=kit.emitter_config(ctx))
+        if steps:
+            kwargs.update(steps=steps, flow=flow)
+        engine = Engine(**kwargs)
+        ctx.engine = engine
+        for _ in range(len(spec['ticks']) + 1):
+            engine.update(1)
+        names = {w['name'] for w in spec['watchers']}
+        n = 0
+        for ev in ctx.log:
+            if ev[0] in ('invoke', 'view.timestep', 'view.condition') \
+                    and ev[1] in names and ev[6] is not None:
+                want = {'pool': {k: {} for k in ev[6].get('pool', {})}}
+                d = deq(ev[5], want)
+                n += 1
+                if d:
+                    res.fail('view', '%s of %s at t=%r: states %r, the '
+                             'collection holds %r: %s' % (
+                                 ev[0], ev[1], ev[2], ev[5],
+                                 sorted(ev[6].get('pool', {})), d),
+                             'store.py:apply_update')
+                    return
+        res.nontrivial = any(op['op'] == 'add' for b in spec['ticks'] for op in b)
+        if not n:
+            res.fail('not_polled', 'no watcher callback recorded')
+    finally:
+        ctx.close()
 
 
 def strategy(tier):
@@ -141,6 +248,8 @@ def run_case(spec):
     try:
         if spec['kind'] == 'static':
             run_static(spec, res)
+        elif spec['kind'] == 'keysonly':
+            run_keysonly(spec, res)
         else:
             from vv import struct
             struct.run_views(spec, res)
